@@ -650,6 +650,56 @@ theorem shiftRange_mem (q : Nat) (lo : Int) (n : Nat) (s : Int) :
     push_cast
     omega
 
+/-! ### unconditional form: the two formerly doubtful rules, as generated NOW, are the correct formulas
+
+These facts are proved by unfolding the generated definitions; a change of `Atom.sqrt` or `Atom.maximum` in
+`differentiators.py` that leaves the correct formula breaks the build of this file (the tie), and the oracle of the
+harness supplies the failing input. -/
+
+/-- the generated `sqrt` rule is `sqrt(value)`, `diff / (2 sqrt(value))` -/
+theorem sqrtFormula_holds : SqrtFormula := by
+  intro sv sd h0
+  refine ⟨rfl, ?_⟩
+  simp only [Atom.sqrt_diff, adfun_sqrt]
+  have : Real.sqrt sv ≠ 0 := ne_of_gt (Real.sqrt_pos.mpr h0)
+  push_cast
+  first | (field_simp; done) | (field_simp; ring1)
+
+/-- the generated `maximum` rule with an Atom floor returns the floor's derivative below the floor, its own above -/
+theorem maxFloorFormula_holds : MaxFloorFormula := by
+  intro sv sd ov od hne
+  simp only [Atom.maximum_aa_diff, adfun_ltb, adfun_eqb, decide_eq_true_eq]
+  rcases lt_or_gt_of_ne hne with h | h
+  · simp [h]
+  · simp [h, not_lt.mpr (le_of_lt h)]
+
+/-- `adEval_sound` with no hypothesis on any rule -/
+theorem adEval_sound_unconditional (data : ℝ → Nat → Int → ℝ) (seed : Nat → Int → ℝ) (logly : Nat → Bool)
+    (ext : Fn1 → ℝ → ℝ)
+    (htok : ∀ q s, HasDerivAt (fun u => data u q s) (Atom.diffProp (seed q s) (data 0 q s) (logly q)) 0)
+    (e : Expr ℝ) (hadm : Admissible ⟨data 0, seed, logly, ext⟩ e) (r : Val ℝ)
+    (h : adEval ⟨data 0, seed, logly, ext⟩ e = .ok r) :
+    Sound r (fun u => eval ⟨data u, seed, logly, ext⟩ e) :=
+  adEval_sound data seed logly ext htok e (fun _ => sqrtFormula_holds) (fun _ => maxFloorFormula_holds) hadm r h
+
+/-- `adEquation_sound` with no hypothesis on any rule: for every tree, log-status assignment, seed function and
+    admissible point the equation's Atom is `(eval e, d/du eval e on the perturbed data at u = 0)` -/
+theorem adEquation_sound_unconditional (base : Nat → Int → ℝ) (seed : Nat → Int → ℝ) (logly : Nat → Bool)
+    (ext : Fn1 → ℝ → ℝ) (e : Expr ℝ) (hadm : Admissible ⟨base, seed, logly, ext⟩ e) (r : Val ℝ)
+    (h : adEquation ⟨base, seed, logly, ext⟩ e = .ok r) :
+    ∃ v d, r = .atom v d ∧ v = eval ⟨base, seed, logly, ext⟩ e ∧
+      HasDerivAt (fun u => eval ⟨perturb base logly seed u, seed, logly, ext⟩ e) d 0 :=
+  adEquation_sound base seed logly ext e (fun _ => sqrtFormula_holds) (fun _ => maxFloorFormula_holds) hadm r h
+
+/-- the dichotomy of the property with no hypothesis on any rule: rejected, or the true value and derivative -/
+theorem differentiated_correctly_or_rejected_unconditional (base : Nat → Int → ℝ) (seed : Nat → Int → ℝ)
+    (logly : Nat → Bool) (ext : Fn1 → ℝ → ℝ) (e : Expr ℝ) (hadm : Admissible ⟨base, seed, logly, ext⟩ e) :
+    (∃ err, adEquation ⟨base, seed, logly, ext⟩ e = .error err) ∨
+    (∃ v d, adEquation ⟨base, seed, logly, ext⟩ e = .ok (.atom v d) ∧ v = eval ⟨base, seed, logly, ext⟩ e ∧
+      HasDerivAt (fun u => eval ⟨perturb base logly seed u, seed, logly, ext⟩ e) d 0) :=
+  differentiated_correctly_or_rejected base seed logly ext e (fun _ => sqrtFormula_holds)
+    (fun _ => maxFloorFormula_holds) hadm
+
 /-! ### non-vacuity: the hypotheses are met by concrete non-trivial values -/
 
 /-- `x * y + log x` at `x = 2` (a log-variable), `y = 3`, system seed in the direction of `x`:
